@@ -80,6 +80,20 @@ NON_NESTED = ["gauss-legendre", "gauss-legendre-odd", "gauss-chebyshev1", "gauss
               "gauss-hermite-odd", "chebyshev", "chebyshev-odd", "custom-tabulated", "custom-tabulated"]
 
 
+def local3d_history(rnd, label):
+    """local polynomial grids in three dimensions, every rule and order, loaded once and after a refinement: the
+    surplus computation switches algorithms with the dimension (DAG walk below three, Kronecker pattern from three on)"""
+    d = 3          # (token values distinguish three coordinates)
+    rule = rnd.choice(LOCAL_RULES)
+    order = rnd.choice([1, 2, 2, 3, 3, -1])
+    depth = 2
+    L = ["SCEN " + label, "make localp %d %d %d %d %s 0" % (d, rnd.choice([1, 2]), depth, order, rule), "load 1"]
+    if rnd.random() < 0.5:
+        L.append("surpl %d -1 %s 0 0" % (rnd.choice([1, 2, 3]), rnd.choice(["stable", "classic", "fds"])))
+        L.append("load 2")
+    return "\n".join(L) + "\n"
+
+
 def nonnested_history(rnd, label):
     """Global grids with non-nested rules (Gauss families with their parameters, a custom tabulated rule): make, transforms, loads,
     continuing on the restored object, copies.  Their point numbering is an observation of the specification, refinement is not
